@@ -279,7 +279,7 @@ class Tape:
 
     def __init__(self, tid, perm):
         self.tid, self.perm = tid, perm
-        self.log = []        # ('uniform', n) / ('shuffle', n)
+        self.log = []        # ('uniform', n) / ('shuffle', n) / ('permutation', n) / ('choice', n, m, replace)
         self.u = []          # every uniform number handed out, in order
         self.calls = 0
         self.size_mismatch = 0
@@ -1036,7 +1036,7 @@ def _part_lhs(task, rec, only=None):
                     unit = [(v + 1) / 2 for v in got] if symmetric else got
                     ok_s, fragile, detail = strata_check(unit, tot)
                     ok = tuple(out.shape) == (n, r) and all_close(got, exp) and (ok_s or fragile) \
-                        and not any(k == 'uniform' for k, _ in tape.log)
+                        and not any(k[0] == 'uniform' for k in tape.log)
                     rec.case(key, (key, digest(out)), outcome=('lhs', symmetric, ok))
                     if not ok:
                         rec.violation(f'C11|lhs-generator-explicit-uniforms|symmetric={symmetric}',
@@ -1771,6 +1771,15 @@ def run_q_points(rec, us, path, case_base):
     n = len(us)
     if path == 'flat':
         zs = flat(lib_quantile(us))
+    elif path == 'vector':
+        # the uniform numbers supplied as a one-dimensional vector (the other paths hand over two-dimensional tables)
+        import biogeme.draws as dr
+        out = dr.get_normal_wichura_draws(1, n, uniform_numbers=np.array(us, dtype=float))
+        if tuple(out.shape) != (1, n):
+            rec.violation('C11|quantile-transform-shape|vector', f'get_normal_wichura_draws returned {out.shape}',
+                          dict(case_base), expected=[1, n], observed=list(out.shape))
+            return
+        zs = flat(out)
     elif path == 'shaped':
         rr = 7
         pad = (-n) % rr
@@ -1922,7 +1931,7 @@ def tasks(tier, seed):
     nsp = len(special_points())
     chunk = 1500
     for lo in range(0, nsp, chunk):
-        t.append(dict(part='q', kind='special', lo=lo, hi=min(nsp, lo + chunk), paths=['flat', 'shaped', 'anti']))
+        t.append(dict(part='q', kind='special', lo=lo, hi=min(nsp, lo + chunk), paths=['flat', 'shaped', 'anti', 'vector']))
     m = 16 if tier == 'quick' else 19
     chunk = 4096 if tier == 'quick' else 8192
     for lo in range(0, 2 ** m, chunk):
